@@ -157,7 +157,10 @@ class Report:
         # a locked obligation that is not regenerated is a vacuity alarm only if its function is UNCHANGED (same normalised AST): after an edit
         # of the function, obligations may legitimately be renamed (their verdicts are then reported under the new names)
         stale = [k for k in missing if self.lock[k].get('fn') is None or cur_sha.get(self.lock[k].get('fn')) == self.lock[k].get('fn_sha')]
-        if stale and not os.environ.get('VERIF_UPDATE_LOCK'):
+        # a run that declares itself partial (a changed function left the engine's subset: `.../engine-subset` is undecided or refuted) is reported as such, not as a vacuity error
+        partial = any(o.id.endswith('engine-subset') and o.status != PROVED for o in self.obs)
+        if stale and partial: self.notes.append(f'{len(stale)} locked obligations were not regenerated because the front end stopped at an engine-subset obligation (run is partial)')
+        elif stale and not os.environ.get('VERIF_UPDATE_LOCK'):
             self.errors.append(f'{len(stale)} locked obligations of unchanged functions were not regenerated, e.g. {stale[:3]}')
         elif missing: self.notes.append(f'{len(missing)} locked obligation names were not regenerated because their functions changed (renamed obligations are reported under their new names)')
         samples = [o.sample() for o in self.obs if o.status != PROVED][:10]
@@ -194,6 +197,15 @@ class Report:
             for o in self.undecided: print(f'UNDECIDED obligation={o.id} [{o.status}] {str(o.detail)[:200]}')
             code = 2
         return code
+
+def oracle_selfcheck(rep, fn, fallback, all_proved, label='oracle-selfcheck'):
+    """thorough tier: the native search that decides `engine-subset` obligations (it only runs when the engine cannot follow a changed function) is executed on the
+    CURRENT function as well; if it reports a failing input although every obligation of that function is proved, the oracle itself is wrong (it would raise false alarms)"""
+    if not fallback or not all_proved or getattr(rep, 'tier', 'quick') != 'thorough': return
+    try: fb = fallback(label)
+    except Exception as e: rep.notes.append(f'native search of {fn.name} could not run on the current tree: {type(e).__name__}: {e}'); return
+    rep.extra.setdefault('fallback_oracles_checked', []).append(fn.name)
+    if fb and fb.get('confirmed'): rep.errors.append(f'native fallback search of {fn.name} reports a failing input although every obligation is proved (inconsistent oracle): {str(fb)[:300]}')
 
 def sanitize(s): return ''.join(c if c.isalnum() or c in '._-' else '_' for c in s)[:150]
 
